@@ -322,8 +322,8 @@ def gen_hist2(rng, tier, cases):
 def generate(rng, tier):
     cases = []
     per = 1 if tier == "quick" else 6
-    for f, b in (("hist1-rat", 40000), ("hist1-f64", 20000), ("interp-trap1", 50000), ("interp-trap1-linear", 25000), ("file1", 30000),
-                 ("hist2-rat", 60000), ("hist2-f64", 30000), ("index-map", 40000), ("quad2", 20000), ("quad2-bilinear", 20000)):
+    for f, b in (("hist1-rat", 30000), ("hist1-f64", 12000), ("interp-trap1", 30000), ("interp-trap1-linear", 15000), ("file1", 18000),
+                 ("hist2-rat", 45000), ("hist2-f64", 18000), ("index-map", 30000), ("quad2", 14000), ("quad2-bilinear", 14000)):
         BUDGET[f] = per * b
     gen_hist1(rng, tier, cases)
     gen_hist2(rng, tier, cases)
@@ -333,6 +333,7 @@ def generate(rng, tier):
 def _ser(x):
     if isinstance(x, Fraction): return "%d/%d" % (x.numerator, x.denominator)
     if isinstance(x, (list, tuple)): return [_ser(y) for y in x]
+    if isinstance(x, dict): return {k: _ser(v) for k, v in x.items()}
     return x
 
 def _conv(elt, x):
@@ -355,9 +356,9 @@ def case_from_json(j):
     elt, m = j["elt"], j["meta"]
     if m["kind"] == "hist1":
         ops = [_conv_op(elt, OPS1, o) for o in m["ops"]]
-        return mk1(elt, m["nvars"], [cv(elt, _conv(elt, x)) for x in m["nodes"]], ops, "corpus")
+        return mk1(elt, m["nvars"], [cv(elt, _conv(elt, x)) for x in m["nodes"]], ops, "corpus", force=True)
     ops = [_conv_op(elt, OPS2, o) for o in m["ops"]]
-    return mk2(elt, m["nvars"], [cv(elt, _conv(elt, x)) for x in m["xs"]], [cv(elt, _conv(elt, x)) for x in m["ys"]], ops, "corpus")
+    return mk2(elt, m["nvars"], [cv(elt, _conv(elt, x)) for x in m["xs"]], [cv(elt, _conv(elt, x)) for x in m["ys"]], ops, "corpus", force=True)
 
 # ----------------------------------------------------------------------------- the property as a predicate
 def oracle(case, items):
